@@ -3,6 +3,15 @@
 import json
 ALL = ["C%02d" % i for i in range(1, 21)]
 CHECKS = {
+ "C01": dict(level="exploration", technique="bounded-exhaustive enumeration of all labelled graphs (closed under relabelling) with generator-invariance oracle",
+   text="CanonicalIsomorph is run on every labelled graph with n<=7 (all 2.1M; n=8, all 2^28, in thorough), in four representations for n<=6, on every labelled regular graph on 8 and 9 vertices (cubic on 10 in thorough) and on 27 named hard graphs (n<=16) under every relabelling within 2 transpositions; because each enumerated set is closed under relabelling, c(g)=c(sigma g)=c(tau g) for all members is invariance under all n! relabellings, and the number of distinct canonical forms must equal the number of orbits found by an independent orbit sweep.",
+   note="Trusted: the mask relabelling helpers, the orbit sweep (closure under two generators), Go runtime. Not covered: graphs with n>=9 outside the listed families.", ref="§3 C01"),
+ "C02": dict(level="exploration", technique="bounded-exhaustive enumeration of graphs, reuse sequences and (graph, class partition) pairs with brute-force / orbit-stabiliser automorphism oracle",
+   text="For every labelled graph with n<=6 (7 in thorough) the generators must be automorphisms generating a group of order |Aut(g)| (brute force, or n!/|class| from the orbit sweep) whose orbits are the returned partition; every sequence (length<=3) of graphs, with and without CheckViability and vertex classes, through one reused storage/partition pair must equal fresh calls; every (graph, ordered class partition) pair with n<=5 (6) is checked against brute-force class-preserving automorphisms and for invariance under the generators of S_n.",
+   note="Trusted: brute-force automorphism enumeration, group closure BFS. Bounds as stated; class lists in ascending or descending order.", ref="§3 C02"),
+ "C05": dict(level="model_checking", technique="explicit-state BFS over exact concrete graph states (fields, capacities, stale storage) with adjacency-set reference model; traces replayed without cloning",
+   text="All edit histories over AddVertex/RemoveVertex/AddEdge/RemoveEdge/Copy/InducedSubgraph are explored on the real DenseGraph (closure of the reachable concrete state space with <=5 vertices) and SparseGraph (closure with <=3 vertices, depth 6 with <=4; closure with <=4 in thorough); after every transition all observers are compared with the model, Copy/InducedSubgraph results are tested for storage independence by scribbling, and every state's shortest trace is replayed on one uncloned object and must reach the same concrete state.",
+   note="Trusted: the adjacency bit-row model and the exact-state clone (validated by the uncloned replays). Valid arguments only.", ref="§3 C05"),
  "C18": dict(level="model_checking", technique="explicit-state BFS over the real union-find array to closure, label-partition reference model",
    text="Every reachable concrete []int state of disjoint.Set for n<=6 (quick) / n<=8 (thorough) under all Union/UnionBuffered/Find/FindBuffered calls is visited on the real code; all observers are compared with a partition model after every transition, and two histories reaching the same array must have generated the same partition.",
    note="Trusted: the label-partition model (20 lines) and Go's runtime. Bounds: n <= 6/8; arguments in range, buffers of capacity >= 1.", ref="§3 C18"),
